@@ -29,10 +29,14 @@ func leaf(name string, finite bool) r.Element {
 	case 1:
 		return value.NewBool(zv.Bool(name))
 	case 2:
-		return value.NewString("文“本\\")
+		return value.NewString(jsonTexts[zv.Choose(len(jsonTexts))])
 	}
 	return value.NewNull()
 }
+
+// texts with a quote and a backslash, and texts that only look like JSON
+// escapes (six ordinary characters \ u 0 0 3 c), control and astral characters
+var jsonTexts = []string{"文“本\\", "\\u003c甲\\u0026", "<>&", "行\n尾\t\u0001", "😀\u2028"}
 
 // keys chosen so that insertion order differs from sorted (document) order
 var keyPool = []string{"甲", "乙", "丙"}
